@@ -124,6 +124,8 @@ pub enum ROp {
     /// read the open file to its end with buffers of n bytes, keeping only its length and SHA-256 (files too large
     /// to hold in memory)
     ReadAllDigest { n: usize },
+    /// one read_vectored call into buffers of these sizes; the result is what the buffers hold up to the returned count
+    ReadVectored { sizes: Vec<usize> },
 }
 
 #[derive(Clone, Debug, PartialEq)]
@@ -175,6 +177,8 @@ pub struct LinearOut {
     pub open: Result<(), String>,
     pub result: Option<Result<(), String>>,
     pub got: BTreeMap<String, Vec<u8>>,
+    /// bytes each sink accepted (also for sinks that only count)
+    pub lens: BTreeMap<String, u64>,
     pub panic: Option<String>,
 }
 
